@@ -103,6 +103,18 @@ def do_update(w, seam, u, op_index, top='Manifest', session=None):
                     m = ManifestRecursiveLoader(os.path.join(root, top), **k)
                 if session is not None:
                     session['m'] = None
+                if u.get('pre_verify') is not None:
+                    # read-only calls on the SAME loader before it updates: they must leave no trace in what is saved
+                    try:
+                        m.assert_directory_verifies(u['pre_verify'], fail_handler=lambda e_: False)
+                    except Exception:
+                        pass
+                    try:
+                        m.find_path_entry(u.get('pre_lookup', 'x'))
+                        m.find_timestamp()
+                    except Exception:
+                        pass
+                    info['pre_verify'] = True
                 lm = u.get('last_mtime')
                 ukw = {}
                 if lm is not None:
@@ -277,6 +289,8 @@ def run_history(sc, want_idempotence=True, faults=None, audits=True):
             r, info = do_update(w, seam, u, opi, top, session)
             if u.get('api', 'lib') != 'lib':
                 session['m'] = None
+            if info.get('pre_verify'):
+                counters['updates_after_verification_on_the_same_loader'] = counters.get('updates_after_verification_on_the_same_loader', 0) + 1
             if info.get('reused_loader'):
                 counters['rounds_on_a_reused_loader'] = counters.get('rounds_on_a_reused_loader', 0) + 1
             if r[0] == 'OS':
